@@ -1576,8 +1576,10 @@ func (b *builder) switchStmt(fn *Function, s *ast.SwitchStmt, label *lblock) {
 		b.stmt(fn, s.Init)
 	}
 
-	entry := fn.currentBlock
 	tag := b.expr(fn, s.Tag)
+	// The tag expression may have created blocks of its own (&&, ||); the switch
+	// is emitted into the block in which the tag's value is available.
+	entry := fn.currentBlock
 
 	heads := make([]*BasicBlock, 0, len(s.Body.List))
 	bodies := make([]*BasicBlock, len(s.Body.List))
